@@ -419,6 +419,13 @@ func Replay(harnesses map[string]func()) (status, detail string) {
 		}()
 		h()
 	}()
+	if cex.Label == "$observe" {
+		if panicked != nil {
+			return "error", fmt.Sprintf("native run panicked: %v %s", panicked, panicStack)
+		}
+		b, _ := json.Marshal(Trace)
+		return "observed", string(b)
+	}
 	if _, isAssume := panicked.(AssumeFailed); isAssume {
 		return "not-reproduced", "an assumption of the harness is false under the model natively (model mismatch)"
 	}
